@@ -52,7 +52,7 @@ def cases(tier):
     for first in range(-1, len(EVENTS)):
         yield ("hist", 3 if tier == "quick" else 4, first)
     for model in range(len(FAULT_MODELS)):
-        for layout in range(5):
+        for layout in range(6):
             for via in ("api", "cli"):
                 yield ("fault", model, layout, via)
 
@@ -269,6 +269,10 @@ def _layout(its, which):
                 lay[i] = it.alts.index("\n    ")
         if it.meta == "nl" and which == 3 and "\n" in it.alts and i not in lay:
             lay[i] = it.alts.index("\n")
+        if which == 5 and it.meta == "sp" and "\n  " in it.alts and its[i - 1].meta == "eq":
+            lay[i] = it.alts.index("\n  ")  # layout 5: "Name =" ends the line, the value follows on the next one
+        if which == 5 and it.meta == "nl" and "\n    " in it.alts and its[i - 1].meta in ("lparen", "comma"):
+            lay[i] = it.alts.index("\n    ")
         if it.meta == "between" and which in (2, 3):
             lay[i] = 2 if which == 2 else 1  # comment line / blank line
         if it.meta == "lead" and which == 2:
@@ -299,10 +303,10 @@ def _faults(model):
             m = copy.deepcopy(model)
             m[ci] = (res, name, args[:ai] + [("Bogus" + an, v)] + args[ai + 1:])
             # renaming a required parameter gives both MissingParameters (command line) and NoSuchParameter (argument line)
-            out.append(("undeclared-parameter", m, (ci, ai), ("NoSuchParameter", "MissingParameters"), "either"))
+            out.append(("undeclared-parameter", m, (ci, ai), ("NoSuchParameter", "MissingParameters"), "either-name"))
             m = copy.deepcopy(model)
             m[ci] = (res, name, args + [("Extra", ("int", "1"))])
-            out.append(("extra-parameter", m, (ci, len(args)), ("NoSuchParameter",), "argument"))
+            out.append(("extra-parameter", m, (ci, len(args)), ("NoSuchParameter",), "argument-name"))
             if v[0] == "list":
                 m = copy.deepcopy(model)
                 m[ci] = (res, name, args[:ai] + [(an, ("bare", "notalist"))] + args[ai + 1:])
@@ -502,6 +506,10 @@ def _run_fault(case):
         elif level == "either":
             a, b = _arg_span(its, starts, ci, ai)
             ok_lines = set(range(a, b + 1)) | {cmd_first}
+        elif level in ("argument-name", "either-name"):
+            # the offending token is the parameter NAME: its line (not the line of a value that follows on a later line)
+            a, b = _arg_span(its, starts, ci, ai)
+            ok_lines = {a} | ({cmd_first} if level == "either-name" else set())
         else:
             ok_lines = set(range(cmd_first, (cmd_last or cmd_first) + 1)) | {None}
         if via == "api" and classes and cls not in classes:
